@@ -15,9 +15,10 @@
    returned, out.peer = error code the real peer connection reported (-1 none).
 
    The first three clauses are the statement of C16.  harness-guard protects
-   against a driver that left the environment's alphabet or missed the prefix
-   state.  "model:" clauses compare with the rest of the specification (which
-   class closes, with which code) and are reported as SPEC-DRIFT only. *)
+   against a driver that left the environment's alphabet.  "model:" clauses
+   compare with the rest of the specification (the state a valid prefix leads
+   to, which class closes, with which code) and are reported as SPEC-DRIFT
+   only. *)
 EXTENDS H3Conn, TraceBase
 
 Outcome(o) == [kind |-> o.kind, code |-> o.code]
@@ -29,8 +30,9 @@ Clauses(e) ==
   << <<"no-raise", o.kind # "raised">>,
      <<"close-code-is-h3", o.kind = "close" => o.code \in H3Codes>>,
      <<"transmit-after-close", o.kind = "close" => (~o.txraised /\ o.txsent >= 1)>>,
-     <<"harness-guard", IsSession(c) \/ (StateOk(pre) /\ e.want = pre /\ Enabled(pre, c))>>,
-     <<"model:outcome", o.kind # "raised" => Outcome(o) \in ExpectedOf(pre, c)>>,
+     <<"harness-guard", IsSession(c) \/ (StateOk(e.want) /\ Enabled(e.want, c))>>,
+     <<"model:prefix-state", e.want = pre>>,
+     <<"model:outcome", (o.kind # "raised" /\ e.want = pre) => Outcome(o) \in ExpectedOf(pre, c)>>,
      <<"model:done-flag", pre.layer = "h3" => (e.postdone = (pre.done \/ o.kind = "close"))>>,
      <<"model:done-silent", pre.done => (o.kind = "events" /\ o.n = 0)>>,
      <<"model:peer-sees-close", (o.kind = "close" /\ ~o.txraised) => o.peer = o.code>>,
